@@ -37,6 +37,10 @@ struct C {
 
     world_id: Option<WorldId>,
     dtor_funcs: HashMap<TypeId, String>,
+    /// `*_free` helpers keyed by the C name of the type they free. Structurally
+    /// equal anonymous types (e.g. the imported and the exported copy of one
+    /// interface's `list<string>`) share one typedef and one helper.
+    dtors_by_type_name: HashMap<String, String>,
     type_names: HashMap<TypeId, String>,
     resources: HashMap<TypeId, ResourceInfo>,
     futures: IndexSet<TypeId>,
@@ -1903,6 +1907,10 @@ impl InterfaceGenerator<'_> {
                     assert!(prev.is_none());
 
                     if defined {
+                        let name = &self.r#gen.type_names[&ty];
+                        if let Some(dtor) = self.r#gen.dtors_by_type_name.get(name).cloned() {
+                            self.r#gen.dtor_funcs.insert(ty, dtor);
+                        }
                         continue;
                     }
 
@@ -2031,6 +2039,9 @@ impl InterfaceGenerator<'_> {
         }
         self.src.c_helpers("}\n");
         self.r#gen.dtor_funcs.insert(id, format!("{prefix}_free"));
+        self.r#gen
+            .dtors_by_type_name
+            .insert(name.clone(), format!("{prefix}_free"));
     }
 
     fn free(&mut self, ty: &Type, expr: &str) {
